@@ -534,10 +534,24 @@ def _iter_items(ip, st, it, limit=16):
             return [(st, list(arr.elems[c:]))]
     if isinstance(it, VAgg) and it.defn == "<SliceIter>":
         sl = it.elems[0]
-        base = ip.read_raw(st, sl.root, sl.steps)
-        s0, n = st.const_of(sl.start), st.const_of(sl.n)
-        if isinstance(base, VArr) and s0 is not None and n is not None and n <= limit:
-            return [(st, [VRef(sl.root, sl.steps + (("ix", Lin.const(s0 + i)),), False) for i in range(n)])]
+        lo, hi = st.interval(sl.n)
+        if lo is not None and hi is not None and hi <= limit:
+            res = []
+            for n in range(max(lo, 0), hi + 1):
+                s2 = st if lo == hi else st.copy()
+                try:
+                    s2.assume_eq0(sl.n - n)
+                except Infeasible:
+                    continue
+                res.append((s2, [VRef(sl.root, sl.steps + (("ix", sl.start + i),), False) for i in range(n)]))
+            return res
+    if isinstance(it, VAgg) and it.defn == "std::ops::RangeInclusive" and len(it.elems) == 3:
+        start, end, exh = it.elems
+        if not (isinstance(exh, VBool) and exh.e == ("c", False)):
+            raise Unsupported("RangeInclusive that was already iterated")
+        return _iter_items(ip, st, VAgg("struct", "std::ops::Range", (start, VInt(end.lin + 1, end.w, end.sg))), limit)
+    if isinstance(it, VAgg) and it.defn == "<Rev>":
+        return [(s2, items[::-1]) for s2, items in _iter_items(ip, st, it.elems[0], limit)]
     raise Unsupported("iterator value %r" % (it,))
 
 
@@ -585,6 +599,180 @@ def s_iter_position(ip, frame, bb, st, callee, args, dty):
         for s2 in cur:
             out.append((s2, mk(OPT, 0)))
     return out
+
+
+def _iter_arg(ip, st, a):
+    return deref(ip, st, a) if isinstance(a, VRef) else a
+
+
+def _pred_once(ip, frame, bb, st, it, f, what):
+    """fallback for a predicate adaptor over a slice iterator of unknown length: analyse the predicate once on an arbitrary element
+    (for its obligations) and return an unknown bool"""
+    from .interp import Unsupported
+    if not (isinstance(it, VAgg) and it.defn == "<SliceIter>"):
+        raise Unsupported("%s over %r" % (what, it))
+    sl = it.elems[0]
+    s2 = st.copy()
+    root = ip.new_oid("iter-elem")
+    base = ip.read_raw(s2, sl.root, sl.steps)
+    ety = base.ety if isinstance(base, VArrS) else T.INT_TYS["u8"]
+    if isinstance(base, VArr) and base.elems:
+        cands = list(base.elems)
+        s2.mem[root] = cands[0] if all(c == cands[0] for c in cands) else ip.generalize(s2, cands)
+    else:
+        s2.mem[root] = ip.fresh_value(s2, ety, "elem")
+    ip.call_value(frame, bb, s2, f, [VRef(root, (), False)], T.BOOL_TY)
+    return [(st, VBool(("sym", st.fresh(0, 1, what))))]
+
+
+def _search(ip, frame, bb, st, it, f, hit, miss, by_ref=False):
+    """run predicate f over the items in order; the first item it accepts ends the search with hit(i, item), none with miss()"""
+    from .interp import Unsupported
+    out = []
+    for s0, items in _iter_items(ip, st, it, limit=16):
+        cur = [s0]
+        for i, item in enumerate(items):
+            nxt = []
+            for s2 in cur:
+                arg = item
+                if by_ref:
+                    root = ip.new_oid("iter-item")
+                    s2.mem[root] = item
+                    arg = VRef(root, (), False)
+                for s3, bv in ip.call_value(frame, bb, s2, f, [arg], T.BOOL_TY):
+                    if not isinstance(bv, VBool):
+                        raise Unsupported("predicate result")
+                    for s4 in ip.branch(s3, bv.e, True):
+                        out.append((s4, hit(i, item)))
+                    for s4 in ip.branch(s3, bv.e, False):
+                        nxt.append(s4)
+            cur = nxt
+        for s2 in cur:
+            out.append((s2, miss()))
+    return out
+
+
+def s_iter_any(ip, frame, bb, st, callee, args, dty):
+    from .interp import Unsupported
+    it = _iter_arg(ip, st, args[0])
+    try:
+        mark = len(ip.log)
+        return _search(ip, frame, bb, st.copy(), it, args[1], lambda i, x: TRUE, lambda: FALSE)
+    except Unsupported:
+        del ip.log[mark:]
+        return _pred_once(ip, frame, bb, st, it, args[1], "Iterator::any")
+
+
+def s_iter_find(ip, frame, bb, st, callee, args, dty):
+    it = _iter_arg(ip, st, args[0])
+    return _search(ip, frame, bb, st, it, args[1], lambda i, x: mk(OPT, 1, x), lambda: mk(OPT, 0), by_ref=True)
+
+
+def _pure_closure(ip, st, f):
+    """the callable captures nothing it could write through (no &mut, no closure that does)"""
+    if isinstance(f, VRef):
+        if f.mut:
+            return False
+        f = ip.read_raw(st, f.root, f.steps)
+    if isinstance(f, VFn):
+        return True
+    if isinstance(f, VClos):
+        return all(not (isinstance(e, (VRef, VSlice)) and e.mut) and (not isinstance(e, VClos) or _pure_closure(ip, st, e)) for e in f.elems)
+    return False
+
+
+def s_iter_fold(ip, frame, bb, st, callee, args, dty):
+    from .interp import Unsupported
+    it = _iter_arg(ip, st, args[0])
+    out = []
+    try:
+        mark = len(ip.log)
+        groups = _iter_items(ip, st.copy(), it, limit=16)
+    except Unsupported:
+        # unknown number of items of a slice: the accumulator is any value of its type; the step function is analysed once on an
+        # arbitrary accumulator and element for its obligations (only for step functions without captured mutable state)
+        del ip.log[mark:]
+        if not (isinstance(it, VAgg) and it.defn == "<SliceIter>" and _pure_closure(ip, st, args[2])):
+            raise
+        sl = it.elems[0]
+        s2 = st.copy()
+        root = ip.new_oid("iter-elem")
+        base = ip.read_raw(s2, sl.root, sl.steps)
+        ety = base.ety if isinstance(base, VArrS) else T.INT_TYS["u8"]
+        s2.mem[root] = ip.fresh_value(s2, ety, "elem")
+        ip.call_value(frame, bb, s2, args[2], [ip.fresh_value(s2, dty, "fold acc"), VRef(root, (), False)], dty)
+        return [(st, ip.fresh_value(st, dty, "fold"))]
+    for s0, items in groups:
+        cur = [(s0, args[1])]
+        for item in items:
+            nxt = []
+            for s2, acc in cur:
+                nxt.extend(ip.call_value(frame, bb, s2, args[2], [acc, item], dty))
+            cur = nxt
+        out.extend(cur)
+    return out
+
+
+def s_iter_for_each(ip, frame, bb, st, callee, args, dty):
+    it = _iter_arg(ip, st, args[0])
+    out = []
+    for s0, items in _iter_items(ip, st, it, limit=16):
+        cur = [s0]
+        for item in items:
+            nxt = []
+            for s2 in cur:
+                nxt.extend(s3 for s3, _rv in ip.call_value(frame, bb, s2, args[1], [item], T.UNIT_TY if hasattr(T, "UNIT_TY") else dty))
+            cur = nxt
+        out.extend((s2, UNIT) for s2 in cur)
+    return out
+
+
+def s_iter_rev(ip, frame, bb, st, callee, args, dty):
+    return [(st, VAgg("struct", "<Rev>", (_iter_arg(ip, st, args[0]),)))]
+
+
+def s_slice_iter_next(ip, frame, bb, st, callee, args, dty):
+    from .interp import Unsupported
+    it = deref(ip, st, args[0])
+    if not (isinstance(it, VAgg) and it.defn == "<SliceIter>"):
+        raise Unsupported("slice iterator state %r" % (it,))
+    sl = it.elems[0]
+    out = []
+    a, b = fork_cmp(st, "Lt", Lin.const(0), sl.n)
+    if a is not None:
+        nv = VAgg("struct", "<SliceIter>", (VSlice(sl.root, sl.steps, sl.start + 1, sl.n - 1, sl.mut),))
+        ip.write_raw(a, args[0].root, args[0].steps, nv)
+        out.append((a, mk(OPT, 1, VRef(sl.root, sl.steps + (("ix", sl.start),), False))))
+    if b is not None:
+        out.append((b, mk(OPT, 0)))
+    return out
+
+
+def s_range_incl_new(ip, frame, bb, st, callee, args, dty):
+    return [(st, VAgg("struct", "std::ops::RangeInclusive", (args[0], args[1], FALSE)))]
+
+
+def s_range_incl_contains(ip, frame, bb, st, callee, args, dty):
+    from .interp import Unsupported
+    r = deref(ip, st, args[0])
+    x = deref(ip, st, args[1])
+    if not (isinstance(r, VAgg) and len(r.elems) == 3 and isinstance(x, VInt)):
+        raise Unsupported("RangeInclusive::contains on %r" % (r,))
+    lo, hi, exh = r.elems
+    e = ("and", ("cmp", "Le", lo.lin, x.lin), ("cmp", "Le", x.lin, hi.lin))
+    if not (isinstance(exh, VBool) and exh.e == ("c", False)):
+        raise Unsupported("RangeInclusive::contains after iteration")
+    return [(st, VBool(e))]
+
+
+def s_range_contains(ip, frame, bb, st, callee, args, dty):
+    from .interp import Unsupported
+    r = deref(ip, st, args[0])
+    x = deref(ip, st, args[1])
+    if not (isinstance(r, VAgg) and len(r.elems) == 2 and isinstance(x, VInt)):
+        raise Unsupported("Range::contains on %r" % (r,))
+    lo, hi = r.elems
+    return [(st, VBool(("and", ("cmp", "Le", lo.lin, x.lin), ("cmp", "Lt", x.lin, hi.lin))))]
 
 
 def s_slice_iter(ip, frame, bb, st, callee, args, dty):
@@ -658,6 +846,9 @@ def s_from_bytes(big):
                 return [(st, VInt(lin, w, sg))]
             if ip.fits(st, lin, w, sg):
                 return [(st, VInt(lin, w, sg))]
+            r = ip.exact_wrap(st, lin, w, sg)
+            if r is not None:
+                return [(st, VInt(r, w, sg))]
             return [(st, ip.fresh_int(st, w, sg, "from_bytes", ("from_bytes", "be" if big else "le", lin)))]
         return [(st, ip.fresh_int(st, w, sg, "from_bytes", ("from_bytes", "be" if big else "le", None)))]
     return f
@@ -683,8 +874,13 @@ def s_checked_shl(ip, frame, bb, st, callee, args, dty):
         c = a.const_of(sh.lin)
         if c is not None:
             r = x.lin.scale(1 << c)
+            cx = a.const_of(x.lin)
             if ip.fits(a, r, x.w, x.sg):
                 val = VInt(r, x.w, x.sg)
+            elif cx is not None and not x.sg:
+                val = cint((cx << c) & ((1 << x.w) - 1), x.w, x.sg)
+            elif ip.exact_wrap(a, r, x.w, x.sg) is not None:
+                val = VInt(ip.exact_wrap(a, r, x.w, x.sg), x.w, x.sg)
             else:
                 val = ip.fresh_int(a, x.w, x.sg, "shl", ("shl_trunc", x.lin, c))
         else:
@@ -693,6 +889,23 @@ def s_checked_shl(ip, frame, bb, st, callee, args, dty):
     if b is not None:
         out.append((b, mk(OPT, 0)))
     return out
+
+
+def s_wrapping_shift(left):
+    # wrapping_shl / wrapping_shr: the shift amount is taken modulo the bit width
+    def f(ip, frame, bb, st, callee, args, dty):
+        x, sh = args
+        c = st.const_of(sh.lin)
+        if c is not None:
+            amt = Lin.const(c % x.w)
+        else:
+            lo, hi = st.interval(sh.lin)
+            if lo is not None and hi is not None and 0 <= lo and hi < x.w:
+                amt = sh.lin
+            else:
+                amt = ip.fresh_int(st, 32, False, "shift amount", ("and", sh.lin, x.w - 1), 0, x.w - 1).lin
+        return [(st, ip.eval_bitop("Shl" if left else "Shr", x.lin, amt, x.w, x.sg, st))]
+    return f
 
 
 def s_checked(opname):
@@ -1042,8 +1255,61 @@ def s_array_eq(ip, frame, bb, st, callee, args, dty):
     return [(st, VBool(("sym", st.fresh(0, 1, "array eq"))))]
 
 
+def slice_eq(ip, st, a, b):
+    """[(state, bool expr)]: element-wise equality of two slices; one outcome per feasible (small) length"""
+    if not st.prove_eq0(a.n - b.n):
+        lo, hi = st.interval(a.n - b.n)
+        if (lo is not None and lo > 0) or (hi is not None and hi < 0):
+            return [(st, ("c", False))]
+        # lengths may differ: split on a.n == b.n when both are small, else unknown
+        la, ha = st.interval(a.n)
+        lb, hb = st.interval(b.n)
+        if None in (la, ha, lb, hb) or ha - la > 8 or hb - lb > 8:
+            return [(st, ("sym", st.fresh(0, 1, "slice eq")))]
+        out = []
+        for x, op in ((a.n - b.n - 1, "ge"), (b.n - a.n - 1, "ge")):
+            s2 = st.copy()
+            try:
+                s2.assume_ge0(x)
+                out.append((s2, ("c", False)))
+            except Infeasible:
+                pass
+        s2 = st.copy()
+        try:
+            s2.assume_eq0(a.n - b.n)
+            out.extend(slice_eq(ip, s2, a, b))
+        except Infeasible:
+            pass
+        return out
+    lo, hi = st.interval(a.n)
+    if lo is None or hi is None or hi > 32 or hi - lo > 8:
+        return [(st, ("sym", st.fresh(0, 1, "slice eq")))]
+    out = []
+    for n in range(max(lo, 0), hi + 1):
+        s2 = st if lo == hi else st.copy()
+        try:
+            s2.assume_eq0(a.n - n)
+        except Infeasible:
+            continue
+        e = ("c", True)
+        for i in range(n):
+            c = struct_eq(ip, s2, slice_elem(ip, s2, a, Lin.const(i)), slice_elem(ip, s2, b, Lin.const(i)))
+            if c == ("c", False):
+                e = c
+                break
+            if c != ("c", True):
+                e = c if e == ("c", True) else ("and", e, c)
+        out.append((s2, e))
+    return out
+
+
 def s_slice_eq(ip, frame, bb, st, callee, args, dty):
-    return [(st, VBool(("sym", st.fresh(0, 1, "slice eq"))))]
+    a, b = as_slice(ip, st, args[0]), as_slice(ip, st, args[1])
+    return [(s2, VBool(e)) for s2, e in slice_eq(ip, st, a, b)]
+
+
+def _neg(e):
+    return ("c", not e[1]) if e[0] == "c" else ("not", e)
 
 
 def struct_eq(ip, st, a, b):
@@ -1093,6 +1359,9 @@ def s_derived_eq(ip, frame, bb, st, callee, args, dty):
 
 
 def s_ne(ip, frame, bb, st, callee, args, dty):
+    if isinstance(args[0], VSlice) or isinstance(args[1], VSlice):
+        a, b = as_slice(ip, st, args[0]), as_slice(ip, st, args[1])
+        return [(s2, VBool(_neg(e))) for s2, e in slice_eq(ip, st, a, b)]
     a = deref(ip, st, args[0])
     b = deref(ip, st, args[1])
     e = struct_eq(ip, st, a, b)
@@ -1160,7 +1429,7 @@ def s_ref_eq(negate):
         a = deref(ip, st, args[0])
         b = deref(ip, st, args[1])
         if isinstance(a, VSlice) and isinstance(b, VSlice):
-            return s_slice_eq(ip, frame, bb, st, callee, [a, b], dty)
+            return [(s2, VBool(_neg(e) if negate else e)) for s2, e in slice_eq(ip, st, a, b)]
         a2 = deref(ip, st, a) if isinstance(a, VRef) else a
         b2 = deref(ip, st, b) if isinstance(b, VRef) else b
         e = struct_eq(ip, st, a2, b2)
@@ -1424,6 +1693,20 @@ def install(ip):
     E["core::slice::<impl [T]>::iter"] = s_slice_iter
     E["<std::slice::Iter<'a, T> as std::iter::Iterator>::all"] = s_iter_all
     E["<std::slice::Iter<'a, T> as std::iter::Iterator>::position"] = s_iter_position
+    E["<std::slice::Iter<'a, T> as std::iter::Iterator>::any"] = s_iter_any
+    E["<std::slice::Iter<'a, T> as std::iter::Iterator>::fold"] = s_iter_fold
+    E["<std::slice::Iter<'a, T> as std::iter::Iterator>::next"] = s_slice_iter_next
+    E["<std::slice::Iter<'a, T> as std::iter::Iterator>::find"] = s_iter_find
+    E["<std::slice::Iter<'a, T> as std::iter::Iterator>::for_each"] = s_iter_for_each
+    E["core::slice::iter::<impl std::iter::IntoIterator for &'a [T]>::into_iter"] = s_slice_iter
+    E["std::iter::Iterator::rev"] = s_iter_rev
+    E["<std::iter::Rev<I> as std::iter::Iterator>::find"] = s_iter_find
+    E["<std::iter::Rev<I> as std::iter::Iterator>::fold"] = s_iter_fold
+    E["std::ops::RangeInclusive::<Idx>::new"] = s_range_incl_new
+    E["std::ops::RangeInclusive::<Idx>::contains"] = s_range_incl_contains
+    E["std::ops::Range::<Idx>::contains"] = s_range_contains
+    E["std::array::equality::<impl std::cmp::PartialEq<[U]> for [T; N]>::eq"] = s_slice_eq
+    E["std::array::equality::<impl std::cmp::PartialEq<[U; N]> for [T]>::eq"] = s_slice_eq
     E["std::iter::Iterator::try_for_each"] = s_try_for_each
     E["<std::option::Option<T> as std::cmp::PartialEq>::eq"] = s_derived_eq
     E["<std::option::Option<T> as std::cmp::PartialEq>::ne"] = s_ne
@@ -1433,6 +1716,8 @@ def install(ip):
         E["core::num::<impl %s>::to_le_bytes" % t] = s_to_le_bytes
         E["core::num::<impl %s>::swap_bytes" % t] = s_swap_bytes
         E["core::num::<impl %s>::checked_shl" % t] = s_checked_shl
+        E["core::num::<impl %s>::wrapping_shl" % t] = s_wrapping_shift(True)
+        E["core::num::<impl %s>::wrapping_shr" % t] = s_wrapping_shift(False)
         E["core::num::<impl %s>::checked_sub" % t] = s_checked("sub")
         E["core::num::<impl %s>::checked_add" % t] = s_checked("add")
         E["core::num::<impl %s>::checked_mul" % t] = s_checked("mul")
